@@ -5,6 +5,7 @@
 From Coq Require Import String List ZArith QArith Bool Arith.
 From PF Require Import Lib.ListX Lib.Calendar Gen.Tables Model.LazyModule Model.Encoders.
 From PF Require Import Proofs.LazyModuleProofs Proofs.EncodersProofs.
+From PF Require Model.Mapper Model.MapperSpec Model.Stats.
 Import ListNotations.
 Local Close Scope Q_scope.
 Local Close Scope Z_scope.
@@ -100,6 +101,67 @@ Theorem time_domain_no_raise : forall (S : Scalar) (stats : list (colstats S)) c
 Proof. exact EncodersProofs.time_domain_no_raise. Qed.
 Print Assumptions time_domain_no_raise.
 
+(* ------------------------------------------------------------------------- *)
+(* END TO END.  The three theorems above take "the matrix lies in the domain" as a hypothesis;
+   here it is discharged: the matrix is what the C01 mapper model (Model/Mapper.v; proved
+   cell-faithful in Props/C01.v) produces column by column, and the statistics are what the C03
+   model (Model/Stats.v; Props/C03.v) computes from the same columns.  `counted_categories cats`:
+   cats is the key list of a valid value_counts table (C03 `valid_count_order`), hence
+   duplicate-free; C01's `index_of_range` then bounds every emitted index by its length. *)
+Theorem categorical_end_to_end :
+  forall (S : Scalar) (L : Type) (cols : list (list Mapper.pval * @Mapper.series L (option Mapper.pval)))
+         n na feat (table : mat (car S)),
+    Forall (fun p => counted_categories (fst p)) cols ->
+    (na <> None -> Forall (fun p => fst p <> []) cols) ->          (* a category to impute: >= 1 non-missing value *)
+    strategy_ok st_categorical na = true ->
+    frame_of_columns n (cat_columns cols) = Some feat ->
+    length table = emb_table_size S (cat_col_stats S cols) ->
+    obind (na_forward_idx S na (cat_col_stats S cols) feat) (encode_embedding S (cat_col_stats S cols) table) <> None.
+Proof. exact (fun S L => @EncodersProofs.categorical_end_to_end S L). Qed.
+Print Assumptions categorical_end_to_end.
+
+(* tables as init_modules allocates them: max(ncat, 1) + 1 rows; without a strategy and with ZEROS *)
+Theorem multicategorical_end_to_end :
+  forall (S : Scalar) (L : Type)
+         (cols : list (list Mapper.pval * option Mapper.str * @Mapper.series L Mapper.mc_cell))
+         encs n na feat mode ch (tables : list (mat (car S))),
+    Forall2 (fun p enc => Mapper.multicategorical_encode true (fst (fst p)) (snd (fst p)) (snd p) = Some enc) cols encs ->
+    Forall mc_ok cols ->
+    strategy_ok st_multicategorical na = true ->
+    frame_of_columns n (map (map ecell_ints) encs) = Some feat ->
+    length tables = length cols ->
+    (forall j, j < length cols -> bag_table_rows (nth j (ncats S (mc_stats S cols)) 0) <= length (nth j tables [])) ->
+    obind (na_forward_bag S na (mc_stats S cols) feat) (encode_bags S mode ch tables) <> None.
+Proof. exact (fun S L => @EncodersProofs.multicategorical_end_to_end S L). Qed.
+Print Assumptions multicategorical_end_to_end.
+
+(* every column has at least one parsed instant; YEAR_RANGE / OLDEST / NEWEST / MEDIAN as C03's
+   compute_time computes them from the column: year - min_year >= 0 for every cell, the calendar
+   components are in range (Lib/Calendar.v), and the imputed cell is itself a cell of the column.
+   Without a strategy the theorem needs "no missing cell" -- the other case is finding D10. *)
+Theorem timestamp_end_to_end :
+  forall (S : Scalar) (L : Type) (cols : list (@Mapper.series L (option Z))) ts n na feat ch half pm w b,
+    Forall2 (fun s t => Stats.present (time_stat_cells (Mapper.ser_values s)) <> [] /\
+                        Stats.compute_time (time_stat_cells (Mapper.ser_values s)) = Some t) cols ts ->
+    strategy_ok st_timestamp na = true ->
+    (na = None -> Forall (fun s => Forall (fun c => c <> None) (Mapper.ser_values s)) cols) ->
+    frame_of_columns n (map (fun s => map ecell_ints (Mapper.timestamp_encode s)) cols) = Some feat ->
+    length w = length cols -> length b = length cols ->
+    obind (na_forward_time S na (map (time_colstats S) ts) feat)
+          (encode_timestamp S (map (time_colstats S) ts) ch half pm w b cyclic_norm_constants) <> None.
+Proof. exact (fun S L => @EncodersProofs.timestamp_end_to_end S L). Qed.
+Print Assumptions timestamp_end_to_end.
+
+(* the hypotheses are satisfiable: a two-row categorical column ["b", "a"] whose count table is
+   {a: 1, b: 1} under the naming a -> 0, b -> 1 *)
+Example counted_categories_example :
+  counted_categories [Mapper.VStr [98%Z]; Mapper.VStr [97%Z]].
+Proof.
+  exists (fun v => match v with Mapper.VStr [97%Z] => 0%Z | _ => 1%Z end), [(1%Z, 1); (0%Z, 1)], [1%Z; 0%Z].
+  split; [|split; reflexivity].
+  intros a b [<- | [<- | []]] [<- | [<- | []]] H; try reflexivity; discriminate.
+Qed.
+
 (* LinearEmbeddingEncoder: the start/end walk over EMB_DIM tiles each value row exactly *)
 Theorem emb_walk_tiles : forall (A : Type) dims start (row : list A),
     length row = start + sum dims ->
@@ -139,11 +201,13 @@ Example forward_order_example :
 Proof. vm_compute. reflexivity. Qed.
 
 (* ========================================================================= *)
-(* (c) LAZY MODULES (torch_frame/nn/base.py) *)
-Theorem init_fires_exactly_once : forall (V : Type) params lazy_attrs args ops,
-    exists s0 s, construct V params lazy_attrs args = Some s0 /\ run V params s0 ops = Some s /\
-                 (missing s = [] -> exists snap, fired s = [snap]) /\
-                 (missing s <> [] -> fired s = []).
+(* (c) LAZY MODULES (torch_frame/nn/base.py).  `init_ok` is the subclass's init_modules:
+   it may reject the configuration it sees (inadmissible na_strategy, odd out_size, ...), in
+   which case the completing statement raises AFTER the missing set was emptied.  `fired` lists
+   the configurations init_modules was called with, `built` those it completed with. *)
+Theorem init_fires_exactly_once : forall (V : Type) params lazy_attrs init_ok args ops,
+    let s := run V params init_ok (state_of (construct V params lazy_attrs init_ok args)) ops in
+    (missing s = [] -> exists snap, fired s = [snap]) /\ (missing s <> [] -> fired s = []).
 Proof. exact fires_exactly_once. Qed.
 Print Assumptions init_fires_exactly_once.
 
@@ -152,28 +216,56 @@ Theorem use_iff_complete : forall (V : Type) (s : mstate V),
 Proof. exact LazyModuleProofs.use_iff_complete. Qed.
 Print Assumptions use_iff_complete.
 
-Theorem frozen_after_fire : forall (V : Type) params ops (s s' : mstate V),
-    missing s = [] -> run V params s ops = Some s' -> fired s' = fired s /\ missing s' = [].
+(* Once complete, later assignments never rebuild.  This is the module as written; it is also
+   why an encoder object that was already completed for one dataset keeps that dataset's
+   statistics when the same object is handed to a second StypeWiseFeatureEncoder: re-use of
+   completed encoder objects across datasets is OUTSIDE C12's quantifier ("the stype-wise
+   feature encoder built from the dataset's statistics" presupposes encoders that are not yet
+   completed), and every case of the check builds fresh encoder objects. *)
+Theorem frozen_after_fire : forall (V : Type) params init_ok ops (s : mstate V),
+    missing s = [] ->
+    fired (run V params init_ok s ops) = fired s /\ missing (run V params init_ok s ops) = [].
 Proof. exact LazyModuleProofs.frozen_after_fire. Qed.
 Print Assumptions frozen_after_fire.
 
-Theorem eager_builds_target : forall (V : Type) params lazy_attrs (vals : string -> option V),
+(* A statement raises exactly when it completes the module with a configuration init_modules
+   rejects.  Afterwards the module is "fully specified", passes the validate() guard, and is
+   built from nothing -- it was rejected, but it does not refuse through validate(). *)
+Theorem completing_assignment_raises : forall (V : Type) params init_ok (s : mstate V) k v,
+    Inv V s ->
+    is_raised (setattr V params init_ok s k v) = true ->
+    let s' := state_of (setattr V params init_ok s k v) in
+    missing s' = [] /\ use V s' = Some tt /\ built V init_ok s' = [] /\
+    exists snap, fired s' = [snap] /\ init_ok snap = false.
+Proof. exact setattr_raises_iff. Qed.
+Print Assumptions completing_assignment_raises.
+
+Theorem constructed_invariant : forall (V : Type) params lazy_attrs init_ok args ops,
+    Inv V (run V params init_ok (state_of (construct V params lazy_attrs init_ok args)) ops).
+Proof. intros. apply run_inv. apply construct_inv. Qed.
+Print Assumptions constructed_invariant.
+
+(* eager construction calls init_modules on the target configuration and raises iff rejected *)
+Theorem eager_builds_target : forall (V : Type) params lazy_attrs init_ok (vals : string -> option V),
     NoDup params ->
     (forall k, mem k lazy_attrs = true -> In k params /\ vals k <> None) ->
-    exists s, construct V params lazy_attrs (map vals params) = Some s /\ missing s = [] /\
-              fired s = [target V params vals].
+    let o := construct V params lazy_attrs init_ok (map vals params) in
+    missing (state_of o) = [] /\ fired (state_of o) = [target V params vals] /\
+    is_raised o = negb (init_ok (target V params vals)).
 Proof. exact LazyModuleProofs.eager_builds_target. Qed.
 Print Assumptions eager_builds_target.
 
 (* any order, any interleaving, re-assignments, None assigned to still-missing attributes:
-   when the module completes it is built from exactly the configuration the eager
-   constructor would have seen *)
-Theorem lazy_any_order_builds_target : forall (V : Type) params lazy_attrs (vals : string -> option V) args ops,
+   when the module completes, init_modules is called on exactly the configuration the eager
+   constructor would have seen (hence it is rejected lazily iff it is rejected eagerly) *)
+Theorem lazy_any_order_builds_target :
+  forall (V : Type) params lazy_attrs init_ok (vals : string -> option V) args ops,
     NoDup params -> length args = length params ->
     Forall (consistent V lazy_attrs vals) (combine params args) -> Forall (consistent V lazy_attrs vals) ops ->
-    exists s0 s, construct V params lazy_attrs args = Some s0 /\ run V params s0 ops = Some s /\
-                 (clobber_free V params lazy_attrs s0 ops = true -> missing s = [] ->
-                  fired s = [target V params vals]).
+    let s0 := state_of (construct V params lazy_attrs init_ok args) in
+    clobber_free V params lazy_attrs init_ok s0 ops = true ->
+    missing (run V params init_ok s0 ops) = [] ->
+    fired (run V params init_ok s0 ops) = [target V params vals].
 Proof. exact LazyModuleProofs.lazy_any_order_builds_target. Qed.
 Print Assumptions lazy_any_order_builds_target.
 
@@ -186,24 +278,38 @@ Print Assumptions stype_encoder_signature_ok.
 
 (* a half-configured module: stats_list given, then out_channels, use attempted, then stype *)
 Example lazy_example :
-  let s0 := construct nat stype_encoder_params stype_encoder_lazy_attrs [None; Some 7; None; Some 1; None] in
-  match s0 with
-  | Some s0 =>
-      match run nat stype_encoder_params s0 [("out_channels"%string, Some 4); ("stype"%string, None)] with
-      | Some s1 =>
-          use nat s1 = None /\ fired s1 = [] /\
-          match run nat stype_encoder_params s1 [("stype"%string, Some 2); ("out_channels"%string, Some 9)] with
-          | Some s2 => use nat s2 = Some tt /\
-                       fired s2 = [[("out_channels"%string, Some 4); ("stats_list"%string, Some 7);
-                                    ("stype"%string, Some 2); ("post_module"%string, Some 1);
-                                    ("na_strategy"%string, None)]]
-          | None => False
-          end
-      | None => False
-      end
-  | None => False
-  end.
+  let ok := fun _ : list (string * option nat) => true in
+  let s0 := state_of (construct nat stype_encoder_params stype_encoder_lazy_attrs ok [None; Some 7; None; Some 1; None]) in
+  let s1 := run nat stype_encoder_params ok s0 [("out_channels"%string, Some 4); ("stype"%string, None)] in
+  let s2 := run nat stype_encoder_params ok s1 [("stype"%string, Some 2); ("out_channels"%string, Some 9)] in
+  use nat s1 = None /\ fired s1 = [] /\ use nat s2 = Some tt /\
+  fired s2 = [[("out_channels"%string, Some 4); ("stats_list"%string, Some 7); ("stype"%string, Some 2);
+               ("post_module"%string, Some 1); ("na_strategy"%string, None)]].
 Proof. vm_compute. repeat split; reflexivity. Qed.
+
+(* the hypotheses of lazy_any_order_builds_target on that sequence (target: out_channels 4,
+   stats_list 7, stype 2, post_module 1), and a configuration init_modules rejects
+   (na_strategy = 6): the completing assignment raises, the module stays unbuilt *)
+Example lazy_hypotheses_example :
+  let vals := fun k : string => if String.eqb k "out_channels" then Some 4 else if String.eqb k "stats_list" then Some 7
+                                else if String.eqb k "stype" then Some 2 else if String.eqb k "post_module" then Some 1
+                                else None in
+  let args := [None; Some 7; None; Some 1; None] in
+  let ops := [("out_channels"%string, Some 4); ("stype"%string, None); ("stype"%string, Some 2)] in
+  let ok := fun _ : list (string * option nat) => true in
+  Forall (consistent nat stype_encoder_lazy_attrs vals) (combine stype_encoder_params args) /\
+  Forall (consistent nat stype_encoder_lazy_attrs vals) ops /\
+  clobber_free nat stype_encoder_params stype_encoder_lazy_attrs ok
+               (state_of (construct nat stype_encoder_params stype_encoder_lazy_attrs ok args)) ops = true /\
+  let bad := probe_init_ok (Some 6) in
+  let o := setattr nat stype_encoder_params bad
+                   (state_of (construct nat stype_encoder_params stype_encoder_lazy_attrs bad
+                                        [Some 4; Some 7; None; Some 1; Some 6])) "stype"%string (Some 2) in
+  is_raised o = true /\ use nat (state_of o) = Some tt /\ built nat bad (state_of o) = [].
+Proof.
+  repeat split; try (vm_compute; reflexivity);
+    repeat (constructor; try (left; reflexivity); try (right; split; reflexivity)).
+Qed.
 
 (* StypeWiseFeatureEncoder.__init__: child-stype keys and unsupported pairings are rejected *)
 Theorem stypewise_init_spec : forall (Enc : Type) (supported : Enc -> list stype) keys d,
